@@ -393,6 +393,52 @@ def boundary_cases():
                 yield "bcast-rtsp-boundary-fu", cfgs[0], evs
 
 
+# --------------------------------------------------------------------------
+# metadata whose fields have every AMF0 type: the broadcast path reads `audiocodecid` and `audiosamplerate`
+# (Rtmp2RtspRemuxer) with a type assertion; everything else only passes through ParseMetadata / DebugString
+def amf_values():
+    """(name, encoded AMF0 value) for every value type of the AMF0 specification"""
+    import struct
+    return [("number", amf_num(8)), ("number13", amf_num(13)), ("number-big", b"\x00" + struct.pack(">d", 1e300)), ("nan", b"\x00" + b"\x7f\xf8" + bytes(6)),
+            ("boolean", b"\x01\x01"), ("string", amf_str(b"44100")), ("string-empty", amf_str(b"")),
+            ("long-string", b"\x0c" + (70000).to_bytes(4, "big") + b"4" * 70000), ("long-string-short", b"\x0c\x00\x00\x00\x02ab"),
+            ("object", b"\x03" + b"\x00\x01a" + amf_num(1) + b"\x00\x00\x09"), ("object-empty", b"\x03\x00\x00\x09"),
+            ("null", b"\x05"), ("undefined", b"\x06"), ("reference", b"\x07\x00\x00"),
+            ("ecma-array", b"\x08\x00\x00\x00\x01" + b"\x00\x01a" + amf_num(1) + b"\x00\x00\x09"),
+            ("strict-array", b"\x0a\x00\x00\x00\x02" + amf_num(1) + amf_str(b"x")), ("strict-array-empty", b"\x0a\x00\x00\x00\x00"),
+            ("date", b"\x0b" + bytes(8) + b"\x00\x00"), ("unsupported", b"\x0d"), ("xml", b"\x0f\x00\x00\x00\x01x"), ("typed-object", b"\x10\x00\x01c\x00\x00\x09")]
+
+
+META_KEYS = [b"audiocodecid", b"audiosamplerate", b"videocodecid", b"width", b"height", b"duration", b"framerate", b"stereo", b"encoder"]
+
+
+def metadata_type_cases():
+    """(label, metadata payload)"""
+    base = [(b"duration", amf_num(0)), (b"width", amf_num(640)), (b"audiocodecid", amf_num(8)), (b"audiosamplerate", amf_num(8000)), (b"stereo", b"\x01\x00")]
+    out = []
+    for key in META_KEYS:
+        for tname, enc in amf_values():
+            for sdf in (False, True):
+                for ecma in (False, True):
+                    if key not in (b"audiocodecid", b"audiosamplerate") and (sdf or ecma) and tname not in ("string", "null", "strict-array"):
+                        continue
+                    pairs = [(k, (enc if k == key else v)) for k, v in base]
+                    if key not in [k for k, _ in base]:
+                        pairs.append((key, enc))
+                    out.append(("meta-type-%s" % tname, metadata(pairs, sdf=sdf, ecma=ecma)))
+    # missing / duplicated keys, value position
+    for key in (b"audiocodecid", b"audiosamplerate"):
+        others = [(k, v) for k, v in base if k != key]
+        out.append(("meta-keys", metadata(others)))
+        for tname, enc in amf_values()[:12]:
+            out.append(("meta-keys", metadata([(key, enc)] + base)))                 # the odd one first: Find returns the first match
+            out.append(("meta-keys", metadata(base + [(key, enc)], ecma=True)))      # the odd one last
+            out.append(("meta-keys", metadata([(key, enc), (key, enc)], sdf=True)))
+    out.append(("meta-keys", metadata([])))
+    out.append(("meta-keys", metadata([], ecma=True, sdf=True)))
+    return out
+
+
 def drop_empty(evs):
     """the remuxers sit behind the group's empty-payload gate"""
     return [e for e in evs if not e.endswith(":-")]
@@ -414,6 +460,39 @@ def gen_cases(tier, rng):
     # (0c) rtsp consumers waiting for a GOP start while the nal units the boundary classifiers index arrive
     for cls, cfg, evs in boundary_cases():
         yield bcast(cfg, evs, cls)
+    # (0d) metadata: every field the broadcast path reads (and the usual others) x every AMF0 value type, object / ecma-array form,
+    #      with / without @setDataFrame, missing / duplicated keys; then g711 audio so that the values are used
+    for cls, b in metadata_type_cases():
+        tail = [P(8, 0, G711U), P(9, 0, AVC_SH), P(9, 0, AVC_IDR), P(8, 20, G711U)]
+        yield bcast(ALL_ON, JOINS[:2] + [P(18, 0, b)] + tail, "bcast-" + cls)
+        if len(b) < 2000:
+            yield Case("c05.rtsp 0 %s" % ";".join([P(18, 0, b)] + tail), cls="rtsp-" + cls)
+    # (0e) long payloads (3 and more rtmp chunks of 4096) x timestamps around the 24-bit / 32-bit limits (extended timestamp
+    #      repeated in every continuation chunk), for audio, video and metadata
+    for n in (4096, 4097, 8192, 8193, 12288, 12289, 70000):
+        for ts in (0, 0xfffffe, 0xffffff, 0x1000000, 0x7fffffff, 0xffffffff):
+            for t, head in ((9, AVC_P[:5]), (9, bytes([0x91]) + b"hvc1" + b"\x00\x00\x00"), (8, b"\xaf\x01"), (8, b"\x82"),
+                            (18, metadata([(b"encoder", b"\x0c" + (n).to_bytes(4, "big") + b"e" * n)])[:n])):
+                if t == 18:
+                    tok = hex_tok(head) if len(head) <= 64 else "%s+r%d.%d" % (hex_tok(head[:32]), n - 32, n & 0xffff)
+                else:
+                    tok = "%s+r%d.%d" % (hex_tok(head), n - len(head), (n + ts) & 0xffff)
+                pre = PREAMBLE_AVC if ts < 0x10000 else [P(9, ts - 40, AVC_SH), P(8, ts - 40, AAC_SH), P(9, ts - 40, AVC_IDR)]
+                yield bcast(ALL_ON, JOINS + pre + [P(t, ts, tok), P(9, ts, AVC_IDR)], "bcast-long-ts")
+                if n in (8193, 70000):
+                    yield bcast("re=1,rg=1", ["Jr:1", P(t, ts, tok), "Jr:7", P(t, ts, tok)], "bcast-long-ts")
+    # (0f) remux.RtspRemuxerAddSpsPps2KeyFrameFlag on (F-46, repaired): key frames of 6..14 bytes and longer, avc / hevc /
+    #      enhanced hevc (nalu data at GetEnchanedHevcNaluIndex()), several nalus, through the remuxer and the whole fan-out
+    for pre, heads in ((PREAMBLE_AVC, [bytes.fromhex("1701000000"), bytes.fromhex("2701000000")]),
+                       (PREAMBLE_HEVC, [bytes.fromhex("1c01000000"), bytes.fromhex("2c01000000")]),
+                       (PREAMBLE_EHEVC, [bytes([0x91]) + b"hvc1" + b"\x00\x00\x10", bytes([0x93]) + b"hvc1", bytes([0xa1]) + b"hvc1" + b"\x00\x00\x00"])):
+        for h in heads:
+            bodies = [bytes(k) for k in range(0, 6)] + [avcc(b"\x65"), avcc(b"\x26\x01\xaf"), avcc(b"\x65\x88", b"\x41\x9a\x00"),
+                                                       b"\x00\x00\x00\x09\x65\x88", avcc(bytes([0x65]) + bytes(1500))]
+            for b in bodies:
+                evs = pre + [P(9, 40, h + b), P(9, 80, AVC_P)]
+                yield Case("c05.rtsp 1 %s" % ";".join(evs), cls="rtsp-addflag")
+                yield bcast("se=1,wk=1,re=1,ak=1", pre[:2] + ["Js:5"] + pre[2:] + [P(9, 40, h + b)], "bcast-addflag")
     # (1) helpers of t_rtmp.go, exhaustive on short payloads
     for t, b in short_payloads():
         yield Case("c05.cls %d %s" % (t, hex_tok(b)), cls="cls-short")
@@ -485,7 +564,7 @@ def gen_cases(tier, rng):
         pevs = [e for e in evs if e.startswith("P")]
         if drop_empty(pevs):
             yield Case("c05.ts %s" % ";".join(drop_empty(pevs)), cls="ts-stream")
-            yield Case("c05.rtsp 0 %s" % ";".join(drop_empty(pevs)), cls="rtsp-stream")
+            yield Case("c05.rtsp %d %s" % (i % 2, ";".join(drop_empty(pevs))), cls="rtsp-stream")
         if i % 3 == 0:
             yield Case("c05.dummy %d 8 %s" % (rng.choice([0, 100, 150]), ";".join(pevs)), cls="dummy-stream")
     # (7) mutation stream: hostile histories
@@ -497,7 +576,7 @@ def gen_cases(tier, rng):
             pevs = [e for e in evs if e.startswith("P")]
             if drop_empty(pevs):
                 yield Case("c05.ts %s" % ";".join(drop_empty(pevs)), cls="ts-hostile")
-                yield Case("c05.rtsp 0 %s" % ";".join(drop_empty(pevs)), cls="rtsp-hostile")
+                yield Case("c05.rtsp %d %s" % ((i // 2) % 2, ";".join(drop_empty(pevs))), cls="rtsp-hostile")
         if i % 4 == 0:
             yield Case("c05.dummy %d 8 %s" % (rng.choice([0, 100, 150]), ";".join(pevs)), cls="dummy-hostile")
 
@@ -552,9 +631,6 @@ def classify_finding(case, impl_out):
     sites = _sites(impl_out)
     if len(sites) == 1 and sites[0] in KNOWN_SITES:
         return KNOWN_SITES[sites[0]]
-    # remux.RtspRemuxerAddSpsPps2KeyFrameFlag = true is only reachable through the component op (lalserver never sets it)
-    if op == "c05.rtsp" and case.line.split(" ")[1] == "1" and sites == ["remux.(*Rtmp2RtspRemuxer).remux:slice"]:
-        return "F-46"
     return None
 
 
